@@ -273,8 +273,88 @@ def next_pairs(body):
     return groups
 
 
+def pair_summary(body):
+    """single-valued read in one body: {first, second, bad_dup_accepted, bad_dup_not_err, absent_rets, unwrapped} or None when the body
+    has no `first next(), second next()` pair on one iterator; 'error' when the outcomes cannot be identified"""
+    groups = next_pairs(body)
+    pairs = [v for v in groups.values() if len(v) >= 2]
+    if len(pairs) != 1:
+        return None
+    first, second = pairs[0][0], pairs[0][1]
+    o1 = flow.outcomes_of_call(body, first)
+    o2 = flow.outcomes_of_call(body, second)
+    # `iter.next()?` in an Option-returning function: Continue = Some, Break = None
+    some1, none1 = o1.get("Some") or o1.get("Continue"), o1.get("None") or o1.get("Break")
+    some2, none2 = o2.get("Some") or o2.get("Continue"), o2.get("None") or o2.get("Break")
+    unwrapped = False
+    if not some1:
+        # `iter.next().unwrap()`: the Some outcome is the normal return of the unwrap call
+        for b3, t3 in body.calls():
+            if callee_def(t3) in ("core::option::Option::<T>::unwrap", "core::option::Option::<T>::expect") and \
+                    flow.op_place(t3["args"][0]) and flow.op_place(t3["args"][0])["l"] in o1.carriers:
+                some1 = {(b3, None)}
+                none1 = {("panic", None)}
+                unwrapped = True
+    if not (some1 and none1 and some2 and none2):
+        return {"first": first, "second": second, "error": "cannot identify the Some/None outcomes of the two next() calls"}
+    rw = flow.return_writes(body)
+    # from Some(first) without crossing None(second): only Err / residual returns
+    r = flow.reach_from_edges(body, some1, removed=frozenset(none2))
+    bad = [w for w in rw if w["bi"] in r and w["kind"] not in ("Err", "residual")]
+    # inside a loop (parse_opt_metadata) the final Ok is reachable by skipping the iteration; restrict to the iteration:
+    if bad and flow.back_edges(body):
+        be = flow.back_edges(body)
+        r = flow.reach_from_edges(body, some1, removed=frozenset(none2) | frozenset(be))
+        bad2 = []
+        for w in bad:
+            if w["bi"] in r:
+                # reachable from the *second next Some edge* without a back edge? then a duplicate leads to acceptance
+                r2 = flow.reach_from_edges(body, some2, removed=frozenset(be))
+                if w["bi"] in r2:
+                    bad2.append(w)
+        bad = bad2
+    r = flow.reach_from_edges(body, some2, removed=frozenset(flow.back_edges(body)))
+    bad_dup = [w for w in rw if w["bi"] in r and w["kind"] not in ("Err", "residual")]
+    absent = []
+    if not unwrapped:
+        r = flow.reach_from_edges(body, none1, removed=frozenset(flow.back_edges(body)))
+        absent = [w for w in rw if w["bi"] in r]
+    return {"first": first, "second": second, "bad": bad, "bad_dup": bad_dup, "absent": absent, "unwrapped": unwrapped}
+
+
+def _absent_ok(body, rets, optional):
+    if optional:
+        return bool(rets) and all(w["kind"] == "Ok" and flow.is_none_literal(body, w["rv"]["ops"][0]) for w in rets)
+    return bool(rets) and all(w["kind"] in ("Err", "residual") for w in rets)
+
+
+def _report_pair(chk, body, key, ps):
+    chk.verdict(not ps["bad"], "R3", key, body.loc(ps["second"]),
+                "a value taken from the first next() reaches a non-error return without the second next() being None (duplicate accepted) at %s" %
+                [body.loc(w["bi"]) for w in ps["bad"]])
+    chk.verdict(not ps["bad_dup"], "R3", key + ".dup-is-error", body.loc(ps["second"]), "a second occurrence does not end in Err: %s" %
+                [body.loc(w["bi"]) for w in ps["bad_dup"]])
+
+
+def single_value_sources(db, body, cache):
+    """calls in `body` to a function of the crate that itself performs the single-valued read and reports absence as Ok(None)"""
+    out = []
+    for bi, t in body.calls():
+        d = t["callee"].get("resolved") or callee_def(t)
+        g = db.body(d) or db.body(callee_def(t))
+        if g is None or g.crate != "s3s" or g.name == body.name or not g.name.startswith("s3s::http::"):
+            continue
+        if g.name not in cache:
+            cache[g.name] = pair_summary(g)
+        if cache[g.name] is not None:
+            out.append((bi, g, cache[g.name]))
+    return out
+
+
 def rule_r3_r4(chk, db, helpers):
     n = 0
+    cache = {}
+    reported = set()
     for name in sorted(helpers):
         body = db.body(name)
         if body is None:
@@ -283,93 +363,88 @@ def rule_r3_r4(chk, db, helpers):
         sh = short(name)
         if not sh.startswith("parse_") or sh in ("parse_list_header",):
             continue
-        groups = next_pairs(body)
-        pairs = [v for v in groups.values() if len(v) >= 2]
-        if len(pairs) != 1:
-            chk.fail("R3", sh, body.loc(), "single-valued helper has no `first next(), second next()` pair on one iterator (found %s)" % {k: len(v) for k, v in groups.items()})
+        ps = pair_summary(body)
+        optional = "_opt_" in sh
+        if ps is not None:
+            if ps.get("error"):
+                chk.fail("R3", sh, body.loc(ps["first"]), ps["error"])
+                continue
+            n += 1
+            _report_pair(chk, body, sh, ps)
+            if not ps["unwrapped"] and sh != "parse_opt_metadata":
+                chk.verdict(_absent_ok(body, ps["absent"], optional), "R4", sh, body.loc(ps["first"]), "absent %s item must yield %s; returns reachable: %s" %
+                            ("optional" if optional else "required", "Ok(None)" if optional else "Err", [w["kind"] for w in ps["absent"]]))
             continue
-        first, second = pairs[0][0], pairs[0][1]
-        o1 = flow.outcomes_of_call(body, first)
-        o2 = flow.outcomes_of_call(body, second)
-        some1, none1 = o1.get("Some"), o1.get("None")
-        some2, none2 = o2.get("Some"), o2.get("None")
-        unwrapped = False
-        if not some1:
-            # `iter.next().unwrap()`: the Some outcome is the normal return of the unwrap call
-            for b3, t3 in body.calls():
-                if callee_def(t3) in ("core::option::Option::<T>::unwrap", "core::option::Option::<T>::expect") and \
-                        flow.op_place(t3["args"][0]) and flow.op_place(t3["args"][0])["l"] in o1.carriers:
-                    some1 = {(b3, None)}
-                    none1 = {("panic", None)}
-                    unwrapped = True
-        if not (some1 and none1 and some2 and none2):
-            chk.fail("R3", sh, body.loc(first), "cannot identify the Some/None outcomes of the two next() calls")
+        # the read is delegated to a helper that returns Ok(Some(value)) / Ok(None) / Err(duplicate)
+        srcs = single_value_sources(db, body, cache)
+        if len(srcs) != 1:
+            chk.fail("R3", sh, body.loc(), "single-valued helper neither has a `first next(), second next()` pair on one iterator nor delegates to one function that does "
+                     "(candidates: %s)" % [short(g.name) for _, g, _ in srcs])
             continue
+        bi, g, gs = srcs[0]
+        gk = short(g.name)
+        if gs.get("error"):
+            chk.fail("R3", sh, g.loc(gs["first"]), "delegate %s: %s" % (gk, gs["error"]))
+            continue
+        if g.name not in reported:
+            reported.add(g.name)
+            _report_pair(chk, g, gk, gs)
+            chk.verdict(_absent_ok(g, gs["absent"], True), "R4", gk, g.loc(gs["first"]), "the shared single-value reader must report an absent item as Ok(None); "
+                        "returns reachable: %s" % [w["kind"] for w in gs["absent"]])
         n += 1
-        rw = flow.return_writes(body)
-        # R3: from Some(first) without crossing None(second): only Err / residual returns
-        r = flow.reach_from_edges(body, some1, removed=frozenset(none2))
-        bad = [w for w in rw if w["bi"] in r and w["kind"] not in ("Err", "residual")]
-        # inside a loop (parse_opt_metadata) the final Ok is reachable by skipping the iteration; restrict to the iteration:
-        if bad and flow.back_edges(body):
-            be = flow.back_edges(body)
-            r = flow.reach_from_edges(body, some1, removed=frozenset(none2) | frozenset(be))
-            # writes reachable only through the loop exit are fine if the loop exit itself is not reachable w/o back edge
-            bad2 = []
-            for w in bad:
-                if w["bi"] in r:
-                    # is it reachable from the *second next Some edge* without a back edge? then a duplicate leads to acceptance
-                    r2 = flow.reach_from_edges(body, some2, removed=frozenset(be))
-                    if w["bi"] in r2:
-                        bad2.append(w)
-            bad = bad2
-        chk.verdict(not bad, "R3", sh, body.loc(second),
-                    "a value taken from the first next() reaches a non-error return without the second next() being None (duplicate accepted) at %s" %
-                    [body.loc(w["bi"]) for w in bad])
-        # second occurrence => Err
-        r = flow.reach_from_edges(body, some2, removed=frozenset(flow.back_edges(body)))
-        bad = [w for w in rw if w["bi"] in r and w["kind"] not in ("Err", "residual")]
-        chk.verdict(not bad, "R3", sh + ".dup-is-error", body.loc(second), "a second occurrence does not end in Err: %s" % [body.loc(w["bi"]) for w in bad])
-        # R4: absence
-        if unwrapped:
+        chk.ok("R3", sh, body.loc(bi), {"delegated_to": gk})
+        chk.ok("R3", sh + ".dup-is-error", body.loc(bi), {"delegated_to": gk}, nontrivial=False)
+        o = flow.outcomes_of_call(body, bi)
+        none = o.get("None")
+        if not none or not o.get("Some"):
+            chk.fail("R4", sh, body.loc(bi), "cannot identify how the Some/None answer of %s is used" % gk)
             continue
-        r = flow.reach_from_edges(body, none1, removed=frozenset(flow.back_edges(body)))
-        rets = [w for w in rw if w["bi"] in r]
-        if "_opt_" in sh and sh != "parse_opt_metadata":
-            ok = rets and all(w["kind"] == "Ok" and flow.is_none_literal(body, w["rv"]["ops"][0]) for w in rets)
-            chk.verdict(ok, "R4", sh, body.loc(first), "absent optional item must yield Ok(None); returns reachable: %s" % [w["kind"] for w in rets])
-        elif sh != "parse_opt_metadata":
-            ok = rets and all(w["kind"] in ("Err", "residual") for w in rets)
-            chk.verdict(ok, "R4", sh, body.loc(first), "absent required item must yield Err; returns reachable: %s" % [w["kind"] for w in rets])
+        r = flow.reach_from_edges(body, none, removed=frozenset(flow.back_edges(body)))
+        rets = [w for w in flow.return_writes(body) if w["bi"] in r]
+        chk.verdict(_absent_ok(body, rets, optional), "R4", sh, body.loc(bi), "absent %s item must yield %s; returns reachable: %s" %
+                    ("optional" if optional else "required", "Ok(None)" if optional else "Err", [w["kind"] for w in rets]))
     chk.floor("R3", n, 7, "single-valued helper bodies")
+
+
+def _qs_none_test(body):
+    """(block of the `req.s3ext.qs` test, returns reachable from its None edge) or None"""
+    for bi, t in body.calls():
+        if callee_def(t) == "core::option::Option::<T>::as_ref":
+            o = flow.outcomes_of_call(body, bi)
+            none = o.get("None")
+            if not none:
+                continue
+            r = flow.reach_from_edges(body, none)
+            return bi, [w for w in flow.return_writes(body) if w["bi"] in r]
+    return None
 
 
 def rule_r4_qs_none(chk, db, helpers):
     """query helpers: `req.s3ext.qs` = None behaves like an absent item"""
+    cache = {}
     for name in sorted(helpers):
         sh = short(name)
         if sh not in ("parse_query", "parse_opt_query", "parse_opt_query_timestamp"):
             continue
         body = db.body(name)
-        # first switch on discr of Option<&OrderedQs>/as_ref result
-        done = False
-        for bi, t in body.calls():
-            if callee_def(t) == "core::option::Option::<T>::as_ref":
-                o = flow.outcomes_of_call(body, bi)
-                none = o.get("None")
-                if not none:
-                    continue
-                r = flow.reach_from_edges(body, none)
-                rets = [w for w in flow.return_writes(body) if w["bi"] in r]
-                if sh == "parse_query":
-                    ok = rets and all(w["kind"] in ("Err", "residual") for w in rets)
-                else:
-                    ok = rets and all(w["kind"] == "Ok" and flow.is_none_literal(body, w["rv"]["ops"][0]) for w in rets)
-                chk.verdict(ok, "R4", sh + ".no-query-string", body.loc(bi), "request without a query string: returns %s" % [w["kind"] for w in rets])
-                done = True
-                break
-        if not done:
-            chk.fail("R4", sh + ".no-query-string", body.loc(), "could not find the test of req.s3ext.qs")
+        optional = sh != "parse_query"
+        t0 = _qs_none_test(body)
+        if t0 is not None:
+            bi, rets = t0
+            chk.verdict(_absent_ok(body, rets, optional), "R4", sh + ".no-query-string", body.loc(bi), "request without a query string: returns %s" % [w["kind"] for w in rets])
+            continue
+        # delegated: the shared reader maps a missing query string to Ok(None), which this helper treats like an absent item (checked by R4 above)
+        srcs = single_value_sources(db, body, cache)
+        ok = False
+        if len(srcs) == 1:
+            g = srcs[0][1]
+            tg = _qs_none_test(g)
+            if tg is not None:
+                ok = _absent_ok(g, tg[1], True)
+                chk.verdict(ok, "R4", sh + ".no-query-string", g.loc(tg[0]), "request without a query string: the shared reader %s returns %s instead of Ok(None)" %
+                            (short(g.name), [w["kind"] for w in tg[1]]))
+                continue
+        chk.fail("R4", sh + ".no-query-string", body.loc(), "could not find the test of req.s3ext.qs")
 
 
 def rule_r5(chk, db):
@@ -526,6 +601,14 @@ def run(chk, db, tier):
     chk.guard("R4", rule_r4_qs_none, db, helpers)
     chk.guard("R5", rule_r5, db)
     chk.guard("R7", rule_r7, db)
+    # prerequisite for the members bound to the XML payload: the XML reader hands over exactly the character data sent (decided for C13)
+    from . import c13
+    from ..report import Sub
+    sub = Sub(chk, "C13")
+    sub.rule("R6", "escaping / reader discipline: reader text options untouched; the String reader unescapes")
+    sub.rule("R7", "event pump totality: no character-data event is dropped")
+    sub.guard("R6", c13.rule_r6, db)
+    sub.guard("R7", c13.rule_r7, db)
 
 
 META = {
